@@ -150,6 +150,46 @@ def offset_once(rep, prog, rule):
             fe, k = cl[0]
             ksym = Sym(k)
             kcalls = [c for c in k.calls() if prog.call_targets(c)]
+            # the offset must not be applied a second time inside the band closure: no call there
+            # may receive the offset or the object it was read from (a crop box, say)
+            if nimg == 2 and len(s.args) > 2:
+                s_off0 = sym.operand(s.args[2], (s.bb, "term"))
+                base = s_off0
+                while base[0] == "cast":
+                    base = base[2]
+                obj = base[1] if base[0] == "field" else base
+                if base[0] != "const":
+                    capx = None
+                    for b_, blk in enumerate(f.blocks):
+                        for j_, st in enumerate(blk["s"]):
+                            if st[0] == "a" and st[2][0] == "agg" and st[2][1] == "closure" and st[2][2] == k.id:
+                                capx = [sym.operand(o, (b_, j_)) for o in st[2][4]]
+                    p1x = ("param", 1, k.local_name(1))
+                    mapx = {("field", p1x, i): c_ for i, c_ in enumerate(capx or [])}
+
+                    def contains(e, x):
+                        if e == x:
+                            return True
+                        return isinstance(e, tuple) and any(contains(y, x) for y in e if isinstance(y, tuple))
+
+                    def peel(e):
+                        while isinstance(e, tuple) and e and e[0] in ("ref", "deref", "cast"):
+                            e = e[2] if e[0] == "cast" else e[1]
+                        return e
+                    again = None
+                    for c_ in kcalls:
+                        for a_ in c_.args:
+                            e_ = peel(subst(ksym.operand(a_, (c_.bb, "term")), mapx))
+                            e_ = subst(e_, {("ref", obj): obj})
+                            if contains(e_, obj) or contains(e_, base):
+                                again = (c_, e_)
+                    if again is not None:
+                        rep.bad(rule, key + "|offset-twice", again[0].at,
+                                "%s: the split already starts the source bands at %s, and the band closure "
+                                "hands %s to %s again: every band reads the source shifted by the offset a "
+                                "second time" % (f.name, fmt(s_off0)[:60], fmt(again[1])[:60],
+                                                 again[0].name.rsplit("::", 1)[-1]))
+                        continue
             if len(kcalls) != 1:
                 rep.unk(rule, key, s.at, "%d local calls in the band closure" % len(kcalls))
                 continue
